@@ -47,66 +47,123 @@ Proof.
   - apply Z.mod_unique_pos with (q := Z.quot x p); lia.
 Qed.
 
-Section Loop.
-  Variables n p me : Z.
-  Hypothesis Hwf : wf_bcast n p.
-  Hypothesis Hme : 0 <= me < n * p.
-  Let L := block_layout n p me.
-  Let a0 := znode p me.
-  Let lme := zloc p me.
-  Let NL := num_layers n p.
+(* ---------------------------------------------------------------------- *)
+(* Any uniform placement of the ranks on the nodes: rank [rk a l] is the rank with on-node index l on node a
+   (block placement: a * p + l; round-robin placement, mpirun --map-by node: l * n + a).  The layout object is the
+   tables ygm::detail::layout builds from the communicator splits. *)
+Section Placement.
+  Variables n p : Z.
+  Variable rk : Z -> Z -> Z.
+  Variables nd lc : Z -> Z.
 
-  Lemma loop_ok fuel : forall i b out off,
-    0 <= i -> 0 <= b -> (Z.to_nat (NL - i) < fuel)%nat ->
-    exists c,
-      bcast_remote_partners_loop1 fuel L (Some NL) (Some (p * p)) (Some off) (Some (b * p + lme)) (Some i) (Some out)
-      = Some (Some NL, Some (p * p), Some off, Some c,
-              Some (out ++ map (fun b => b * p + lme) (filter (fun b => negb (b =? a0)) (class_nodes (Z.to_nat (NL - i)) p n b)))).
+  Definition placement_ok : Prop :=
+    (forall a l, 0 <= a < n -> 0 <= l < p -> 0 <= rk a l < n * p /\ nd (rk a l) = a /\ lc (rk a l) = l) /\
+    (forall r, 0 <= r < n * p -> 0 <= nd r < n /\ 0 <= lc r < p /\ rk (nd r) (lc r) = r).
+
+  Definition placed_layout (me : Z) : layout_view :=
+    {| m_comm_size := n * p;
+       m_comm_rank := me;
+       m_node_size := n;
+       m_node_id := nd me;
+       m_local_size := p;
+       m_local_id := lc me;
+       m_strided_ranks := map (fun a => rk (Z.of_nat a) (lc me)) (seq 0 (Z.to_nat n));
+       m_local_ranks := map (fun l => rk (nd me) (Z.of_nat l)) (seq 0 (Z.to_nat p));
+       m_rank_to_node := map (fun r => nd (Z.of_nat r)) (seq 0 (Z.to_nat (n * p)));
+       m_rank_to_local := map (fun r => lc (Z.of_nat r)) (seq 0 (Z.to_nat (n * p))) |}.
+
+  Definition remote_partners_placed (me : Z) : list Z :=
+    let a0 := nd me in
+    let l := lc me in
+    let off := (l - a0) mod p in
+    if off <? n then
+      map (fun b => rk b l) (filter (fun b => negb (b =? a0)) (class_nodes (Z.to_nat (num_layers n p)) p n off))
+    else [].
+
+  Hypothesis Hwf : wf_bcast n p.
+  Hypothesis Hpl : placement_ok.
+  Variable me : Z.
+  Hypothesis Hme : 0 <= me < n * p.
+  Let L := placed_layout me.
+  Let a0 := nd me.
+  Let lme := lc me.
+  Let NL := num_layers n p.
+  Let off := (lme - a0) mod p.
+
+  Lemma p_check_world r : 0 <= r <= n * p -> layout__check_world_rank1 L (Some r) = Some tt.
   Proof.
-    destruct Hwf as (Hn & Hp & Hov & Hnp).
-    pose proof (loc_lt p me Hp) as Hl. fold lme in Hl.
-    assert (HNLb : 0 <= NL <= n + 1).
-    { unfold NL, num_layers. pose proof (Z.div_pos n p ltac:(lia) Hp).
-      assert (n / p <= n) by (apply Z.div_le_upper_bound; nia). destruct (0 <? n mod p); lia. }
-    assert (Hnn : n <= n * p) by nia.
-    induction fuel as [|fuel IH]; intros i b out off Hi Hb Hf; [lia|].
+    intros Hr. unfold layout__check_world_rank1, layout__check_rank3; cbn.
+    destruct (Z.ltb_spec r 0); [lia|]. cbn.
+    unfold Z.gtb. destruct (Z.compare_spec r (n * p)); try reflexivity; lia.
+  Qed.
+
+  Lemma p_is_local1 r : 0 <= r < n * p -> layout_is_local1 L (Some r) = Some (a0 =? nd r).
+  Proof.
+    destruct Hwf as (Hn & Hp & Hov & Hnp). intros Hr.
+    unfold layout_is_local1, layout_node_id1. rewrite p_check_world by lia. cbn [obind ccast].
+    rewrite cwrap_u64_ok by lia. unfold L. cbn [m_rank_to_node m_node_id placed_layout].
+    rewrite cvget_map_seq by lia. rewrite Z2Nat.id by lia. reflexivity.
+  Qed.
+
+  Lemma p_strided_get a : 0 <= a < n -> cvget (m_strided_ranks L) (Some a) = Some (rk a lme).
+  Proof.
+    intros Ha. unfold L. cbn [m_strided_ranks placed_layout].
+    rewrite cvget_map_seq by lia. rewrite Z2Nat.id by lia. reflexivity.
+  Qed.
+
+  Lemma p_loop_ok fuel : forall i out,
+    0 <= i -> (Z.to_nat (NL - i) < fuel)%nat ->
+    bcast_remote_partners_loop1 fuel L (Some NL) (Some off) (Some i) (Some out)
+    = Some (Some NL, Some off,
+            Some (out ++ map (fun b => rk b lme) (filter (fun b => negb (b =? a0)) (class_nodes (Z.to_nat (NL - i)) p n (off + i * p))))).
+  Proof.
+    destruct Hwf as (Hn & Hp & Hov & Hnp). destruct Hpl as (Hfwd & Hbwd).
+    destruct (Hbwd me Hme) as (Ha0 & Hl & _). fold a0 in Ha0. fold lme in Hl.
+    assert (Hoff : 0 <= off < p) by (apply Z.mod_pos_bound; lia).
+    assert (HNLb : 0 <= NL /\ (NL - 1) * p <= n).
+    { unfold NL, num_layers. pose proof (Z.div_pos n p ltac:(lia) Hp). pose proof (Z.div_mod n p ltac:(lia)) as E.
+      pose proof (Z.mod_pos_bound n p Hp). destruct (Z.ltb_spec 0 (n mod p)); split; nia. }
+    assert (Hpn : p <= n * p) by nia. assert (Hnn : n <= n * p) by nia.
+    induction fuel as [|fuel IH]; intros i out Hi Hf; [lia|].
     cbn [bcast_remote_partners_loop1]. unfold clt at 1, ccmp.
     destruct (Z.ltb_spec i NL) as [Hlt|Hge].
     - replace (Z.to_nat (NL - i)) with (S (Z.to_nat (NL - (i + 1)))) by lia.
-      cbn [class_nodes]. cbv zeta.
-      unfold cge, ccmp, layout_size0. cbn [m_comm_size L block_layout].
-      destruct (Z.ltb_spec b n) as [Hbn|Hbn].
-      + assert (Hcur : 0 <= b * p + lme < n * p) by nia.
-        destruct (Z.geb_spec (b * p + lme) (n * p)); [lia|].
-        unfold L. rewrite (is_local1_ok n p me (b * p + lme)) by (try apply wf_bcast_np; assumption).
-        rewrite node_of_nl by lia. fold a0. cbn [cnot filter].
-        assert (Hnext : b * p + lme + p * p = (b + p) * p + lme) by lia.
-        destruct (Z.eqb_spec a0 b) as [E|E].
-        * replace (b =? a0) with true by (symmetry; apply Z.eqb_eq; lia). cbn [negb].
-          unfold cadd, cbin. rewrite (cnorm_s32_ok (b * p + lme + p * p)) by nia. cbn [oforce]. rewrite (cnorm_s32_ok (i + 1)) by lia. cbn [oforce]. rewrite Hnext.
-          destruct (IH (i + 1) (b + p) out off ltac:(lia) ltac:(lia) ltac:(lia)) as (c & Hc).
-          exists c. fold L. rewrite Hc. reflexivity.
-        * destruct (Z.eqb_spec b a0) as [E2|_]; [congruence|]. cbn [negb map].
+      cbn [class_nodes].
+      assert (Hip : 0 <= i * p <= n) by nia.
+      unfold layout_local_size0, layout_node_size0. unfold L at 1 2. cbn [m_local_size m_node_size placed_layout].
+      unfold cmul, cadd, cbin. rewrite (cnorm_s32_ok (i * p)) by lia. rewrite (cnorm_s32_ok (off + i * p)) by lia.
+      cbn [oforce]. cbv zeta. unfold cge, ccmp.
+      destruct (Z.ltb_spec (off + i * p) n) as [Hbn|Hbn].
+      + destruct (Z.geb_spec (off + i * p) n); [lia|].
+        unfold ccast. rewrite cwrap_u64_ok by lia.
+        rewrite (p_strided_get (off + i * p)) by lia. cbn [oforce].
+        destruct (Hfwd (off + i * p) lme ltac:(lia) Hl) as (Hr & Hnd & _).
+        rewrite (p_is_local1 _ Hr). rewrite Hnd. cbn [cnot filter].
+        replace (off + (i + 1) * p) with (off + i * p + p) in IH by ring.
+        destruct (Z.eqb_spec a0 (off + i * p)) as [E|E].
+        * replace (off + i * p =? a0) with true by (symmetry; apply Z.eqb_eq; lia). cbn [negb].
+          rewrite (cnorm_s32_ok (i + 1)) by lia. cbn [oforce].
+          rewrite (IH (i + 1) out ltac:(lia) ltac:(lia)).
+          replace (off + (i + 1) * p) with (off + i * p + p) by ring. reflexivity.
+        * destruct (Z.eqb_spec (off + i * p) a0) as [E2|_]; [congruence|]. cbn [negb map].
           unfold cemit. cbn [oforce].
-          unfold cadd, cbin. rewrite (cnorm_s32_ok (b * p + lme + p * p)) by nia. cbn [oforce]. rewrite (cnorm_s32_ok (i + 1)) by lia. cbn [oforce]. rewrite Hnext.
-          destruct (IH (i + 1) (b + p) (out ++ [b * p + lme]) off ltac:(lia) ltac:(lia) ltac:(lia)) as (c & Hc).
-          exists c. fold L. rewrite Hc. rewrite <- app_assoc. reflexivity.
-      + assert (b * p + lme >= n * p) by nia.
-        destruct (Z.geb_spec (b * p + lme) (n * p)); [|lia].
-        exists (b * p + lme). cbn [filter map]. now rewrite app_nil_r.
-    - replace (Z.to_nat (NL - i)) with O by lia. cbn [class_nodes filter map].
-      exists (b * p + lme). now rewrite app_nil_r.
+          rewrite (cnorm_s32_ok (i + 1)) by lia. cbn [oforce].
+          rewrite (IH (i + 1) (out ++ [rk (off + i * p) lme]) ltac:(lia) ltac:(lia)).
+          replace (off + (i + 1) * p) with (off + i * p + p) by ring. rewrite <- app_assoc. reflexivity.
+      + destruct (Z.geb_spec (off + i * p) n); [|lia].
+        cbn [filter map]. now rewrite app_nil_r.
+    - replace (Z.to_nat (NL - i)) with O by lia. cbn [class_nodes filter map]. now rewrite app_nil_r.
   Qed.
 
-  Theorem Gen_bcast_correct : bcast_remote_partners L = Some (remote_partners_spec n p me).
+  Theorem Gen_bcast_placed : bcast_remote_partners L = Some (remote_partners_placed me).
   Proof.
-    destruct Hwf as (Hn & Hp & Hov & Hnp).
-    pose proof (loc_lt p me Hp) as Hl. fold lme in Hl.
-    pose proof (node_lt n p me Hp Hme) as Ha. fold a0 in Ha.
+    pose proof p_loop_ok as LOOP.
+    destruct Hwf as (Hn & Hp & Hov & Hnp). destruct Hpl as (Hfwd & Hbwd).
+    destruct (Hbwd me Hme) as (Ha0 & Hl & _). fold a0 in Ha0. fold lme in Hl.
     assert (Hnn : n <= n * p) by nia. assert (Hpp : p <= n * p) by nia.
-    unfold bcast_remote_partners, remote_partners_spec.
+    unfold bcast_remote_partners, remote_partners_placed.
     unfold layout_node_size0, layout_local_size0, layout_local_id0, layout_node_id0.
-    cbn [m_node_size m_local_size m_local_id m_node_id L block_layout]. fold a0 lme.
+    unfold L in *. cbn [m_node_size m_local_size m_local_id m_node_id placed_layout]. fold a0 lme.
     unfold cdiv, crem, cadd, cmul, csub, cbin, ccast, cgt, clt, ccmp, cb2z.
     destruct (Z.eqb_spec p 0); [lia|].
     rewrite quot_nonneg, rem_nonneg by lia.
@@ -116,33 +173,71 @@ Section Loop.
     assert (Hgt : (n mod p >? 0) = (0 <? n mod p)).
     { unfold Z.gtb, Z.ltb. rewrite Z.compare_antisym. destruct (0 ?= n mod p); reflexivity. }
     rewrite Hgt.
-    assert (HNL : Some (n / p + (if 0 <? n mod p then 1 else 0)) = Some NL) by reflexivity.
     replace (match (if 0 <? n mod p then Some 1 else Some 0) with Some x => Some (cwrap s32 x) | None => None end)
       with (Some (if 0 <? n mod p then 1 else 0)) by (destruct (0 <? n mod p); reflexivity).
     assert (Hrem : - p < Z.rem (lme - a0) p < p).
     { pose proof (Z.rem_bound_abs (lme - a0) p ltac:(lia)). lia. }
     rewrite ?cnorm_s32_ok by (try (destruct (0 <? n mod p); lia); try lia; nia).
     cbn [oforce].
-    pose proof (rem_fixup (lme - a0) p Hp) as Hoff.
+    pose proof (rem_fixup (lme - a0) p Hp) as Hoff. fold off in Hoff.
     set (r0 := Z.rem (lme - a0) p) in *.
-    pose proof (Z.mod_pos_bound (lme - a0) p Hp) as Hob.
+    pose proof (Z.mod_pos_bound (lme - a0) p Hp) as Hob. fold off in Hob.
+    change (n / p + (if 0 <? n mod p then 1 else 0)) with NL.
+    assert (HNL0 : 0 <= NL).
+    { unfold NL, num_layers. destruct (0 <? n mod p); lia. }
     destruct (Z.ltb_spec r0 0) as [Hneg|Hpos].
     - rewrite cnorm_s32_ok by lia. cbn [oforce]. rewrite Hoff.
-      set (off := (lme - a0) mod p) in *.
+      cbv zeta. fold a0 lme off NL.
       destruct (Z.ltb_spec off n) as [Hon|Hon]; [|reflexivity].
-      rewrite cwrap_u64_ok by lia. unfold L.
-      rewrite (strided_get n p me off) by lia. cbn [oforce]. fold lme.
-      destruct (loop_ok (S (Z.to_nat NL)) 0 off [] off ltac:(lia) ltac:(lia) ltac:(lia)) as (c & Hc).
-      change (n / p + (if 0 <? n mod p then 1 else 0)) with NL. fold L. rewrite Hc. cbn [obind app]. now rewrite Z.sub_0_r.
+      rewrite (LOOP (S (Z.to_nat NL)) 0 [] ltac:(lia) ltac:(lia)).
+      cbn [obind app]. rewrite Z.sub_0_r, Z.mul_0_l, Z.add_0_r. reflexivity.
     - cbn [oforce]. rewrite Hoff.
-      set (off := (lme - a0) mod p) in *.
+      cbv zeta. fold a0 lme off NL.
       destruct (Z.ltb_spec off n) as [Hon|Hon]; [|reflexivity].
-      rewrite cwrap_u64_ok by lia. unfold L.
-      rewrite (strided_get n p me off) by lia. cbn [oforce]. fold lme.
-      destruct (loop_ok (S (Z.to_nat NL)) 0 off [] off ltac:(lia) ltac:(lia) ltac:(lia)) as (c & Hc).
-      change (n / p + (if 0 <? n mod p then 1 else 0)) with NL. fold L. rewrite Hc. cbn [obind app]. now rewrite Z.sub_0_r.
+      rewrite (LOOP (S (Z.to_nat NL)) 0 [] ltac:(lia) ltac:(lia)).
+      cbn [obind app]. rewrite Z.sub_0_r, Z.mul_0_l, Z.add_0_r. reflexivity.
   Qed.
-End Loop.
+End Placement.
+
+(* block placement (what mpirun does by default): rank = node * p + on-node index *)
+Lemma block_placement_ok n p : 0 < n -> 0 < p -> placement_ok n p (fun a l => a * p + l) (znode p) (zloc p).
+Proof.
+  intros Hn Hp. split.
+  - intros a l Ha Hl. split; [nia|]. split; [apply node_of_nl; assumption | apply loc_of_nl; assumption].
+  - intros r Hr. split; [apply node_lt; assumption|]. split; [apply loc_lt; assumption|].
+    unfold znode, zloc. pose proof (Z.div_mod r p ltac:(lia)). lia.
+Qed.
+
+Theorem Gen_bcast_correct n p me : wf_bcast n p -> 0 <= me < n * p ->
+  bcast_remote_partners (block_layout n p me) = Some (remote_partners_spec n p me).
+Proof.
+  intros Hwf Hme. destruct Hwf as (Hn & Hp & Hov & Hnp).
+  exact (Gen_bcast_placed n p (fun a l => a * p + l) (znode p) (zloc p) (conj Hn (conj Hp (conj Hov Hnp)))
+           (block_placement_ok n p Hn Hp) me Hme).
+Qed.
+
+(* round-robin placement (mpirun --map-by node, srun -m cyclic): rank = on-node index * n + node *)
+Lemma cyclic_placement_ok n p : 0 < n -> 0 < p -> placement_ok n p (fun a l => l * n + a) (fun r => r mod n) (fun r => r / n).
+Proof.
+  intros Hn Hp. split.
+  - intros a l Ha Hl. split; [nia|]. split.
+    + rewrite Z.add_comm, Z.mod_add by lia. apply Z.mod_small; lia.
+    + rewrite Z.div_add_l by lia. rewrite Z.div_small by lia. lia.
+  - intros r Hr. split; [apply Z.mod_pos_bound; lia|]. split.
+    + split; [apply Z.div_pos; lia | apply Z.div_lt_upper_bound; lia].
+    + pose proof (Z.div_mod r n ltac:(lia)). lia.
+Qed.
+
+Definition cyclic_layout (n p me : Z) : layout_view := placed_layout n p (fun a l => l * n + a) (fun r => r mod n) (fun r => r / n) me.
+Definition remote_partners_cyclic (n p me : Z) : list Z :=
+  remote_partners_placed n p (fun a l => l * n + a) (fun r => r mod n) (fun r => r / n) me.
+
+Theorem Gen_bcast_correct_cyclic n p me : wf_bcast n p -> 0 <= me < n * p ->
+  bcast_remote_partners (cyclic_layout n p me) = Some (remote_partners_cyclic n p me).
+Proof.
+  intros Hwf Hme. destruct Hwf as (Hn & Hp & Hov & Hnp).
+  exact (Gen_bcast_placed n p _ _ _ (conj Hn (conj Hp (conj Hov Hnp))) (cyclic_placement_ok n p Hn Hp) me Hme).
+Qed.
 
 (* ---------------------------------------------------------------------- *)
 (* Coverage                                                                *)
